@@ -26,6 +26,16 @@ def load_constants():
         return json.load(fh)
 
 
+def cfgclass(case):
+    """'default': the library chooses the steps (default generator, possibly with num_extrap /
+    step_ratio options, scaled into the certified disc); 'user': Min/Max generator or scalar step
+    supplied by the caller."""
+    st_ = case['step']
+    if st_['kind'] == 'default' or (st_['kind'] == 'options' and st_.get('step_ratio') is None):
+        return 'default'
+    return 'user'
+
+
 def kbucket(k_est):
     if k_est <= 1:
         return 'k1'
@@ -285,7 +295,10 @@ def evaluate(case, ctx, need_info=False):
         ev.S1.append(a.scale(n + 1, r0, r1))
         # a rule window is scaled by its largest step: only the k_est largest steps head a window
         heads = sorted(hs, reverse=True)[:max(ev.k_est, 1)]
-        ev.U.append(envelope_unit(a, n, d.method_order, heads, w, difference_forming(method, n, d.order),
+        # multicomplex applies no finite-difference rule: its quotient is second order whatever
+        # `order` says (the property excludes it from C06 for that reason)
+        p_eff = 2 if method == 'multicomplex' else d.method_order
+        ev.U.append(envelope_unit(a, n, p_eff, heads, w, difference_forming(method, n, d.order),
                                   ev.amp))
         ev.hmin.append(hmin)
         ev.hmax.append(hmax)
